@@ -359,3 +359,92 @@ contract("ghost:dump_with_literal_zone", use_at_calls=False, opaque=["dby"],
          cases=_lz_cases(), check_frames=False)
 from . import REGISTRY as _REG  # noqa
 _REG["ghost:dump_with_literal_zone"].modes = ["gregorian"]
+
+
+# ---------------------------------------------------------------- truncated date forms (C07)
+TRUNC_DATE_FORMS = {
+    # name: (template, notation) ; fields are spelled by digit fields, the rest is literal
+    "-YYMM": (["-", "year_of_century", "month_of_year"], "basic"),
+    "-YY": (["-", "year_of_century"], "basic"),
+    "--MMDD": (["--", "month_of_year", "day_of_month"], "basic"),
+    "--MM": (["--", "month_of_year"], "basic"),
+    "---DD": (["---", "day_of_month"], "basic"),
+    "YYMMDD": (["year_of_century", "month_of_year", "day_of_month"], "basic"),
+    "YYDDD": (["year_of_century", "day_of_year"], "basic"),
+    "-DDD": (["-", "day_of_year"], "basic"),
+    "YYWwwD": (["year_of_century", "W", "week_of_year", "day_of_week"], "basic"),
+    "YYWww": (["year_of_century", "W", "week_of_year"], "basic"),
+    "-zWwwD": (["-", "year_of_decade", "W", "week_of_year", "day_of_week"], "basic"),
+    "-zWww": (["-", "year_of_decade", "W", "week_of_year"], "basic"),
+    "-WwwD": (["-W", "week_of_year", "day_of_week"], "basic"),
+    "-Www": (["-W", "week_of_year"], "basic"),
+    "-W-D": (["-W-", "day_of_week"], "basic"),
+    "-YY-MM": (["-", "year_of_century", "-", "month_of_year"], "extended"),
+    "--MM-DD": (["--", "month_of_year", "-", "day_of_month"], "extended"),
+    "YY-MM-DD": (["year_of_century", "-", "month_of_year", "-", "day_of_month"], "extended"),
+    "YY-DDD": (["year_of_century", "-", "day_of_year"], "extended"),
+    "YY-Www-D": (["year_of_century", "-W", "week_of_year", "-", "day_of_week"], "extended"),
+    "YY-Www": (["year_of_century", "-W", "week_of_year"], "extended"),
+    "-z-WwwD": (["-", "year_of_decade", "-W", "week_of_year", "day_of_week"], "extended"),
+    "-z-Www": (["-", "year_of_decade", "-W", "week_of_year"], "extended"),
+    "-Www-D": (["-W", "week_of_year", "-", "day_of_week"], "extended"),
+}
+_TW = dict(WIDTHS, year_of_decade=1)
+_SLOT = {"year_of_century": "_year", "year_of_decade": "_year", "month_of_year": "_month_of_year",
+         "day_of_month": "_day_of_month", "day_of_year": "_day_of_year",
+         "week_of_year": "_week_of_year", "day_of_week": "_day_of_week"}
+_TRUNC_OK = {"year_of_century": "True", "year_of_decade": "True",
+             "month_of_year": "1 <= fld('month_of_year') and fld('month_of_year') <= 12",
+             "day_of_month": "1 <= fld('day_of_month') and fld('day_of_month') <= MAXDIM",
+             "day_of_year": "1 <= fld('day_of_year') and fld('day_of_year') <= SUML",
+             "week_of_year": "1 <= fld('week_of_year') and fld('week_of_year') <= 53",
+             "day_of_week": "1 <= fld('day_of_week') and fld('day_of_week') <= 7"}
+
+
+def trunc_date_case(name):
+    templ, style = TRUNC_DATE_FORMS[name]
+
+    def build(E, st):
+        ps = [fld(E, st, t, _TW[t]) if t in _TW else t for t in templ]
+        r = mk_text_parser(E, st, assumed=None)
+        st.obj(r).slots["allow_truncated"] = True
+        st.obj(r).slots["default_to_unknown_time_zone"] = True
+        return {"self": r, "timepoint_string": Text(ps).simplest()}
+    spelled = [t for t in templ if t in _TW]
+    ens = ["result._truncated is True"]
+    for t in spelled:
+        ens.append("result.%s == fld('%s')" % (_SLOT[t], t))
+    for slot in sorted(set(_SLOT.values()) - {_SLOT[t] for t in spelled}):
+        ens.append("result.%s is None" % slot)
+    tp = "year_of_century" if "year_of_century" in spelled else (
+        "year_of_decade" if "year_of_decade" in spelled else None)
+    ens.append("result._truncated_property == %r" % tp if tp else
+               "result._truncated_property is None")
+    # validity: with a (two- or one-digit) year spelled the library reads the other fields
+    # against THAT year number; without one, against the lengths of a leap year / 53 weeks
+    y = ("fld('%s')" % tp) if tp else None
+    has = lambda t: t in spelled
+    conds = []
+    if has("month_of_year") and has("day_of_month"):
+        conds.append("valid_cal(%s, fld('month_of_year'), fld('day_of_month'))" % y if y else
+                     "1 <= fld('month_of_year') and fld('month_of_year') <= 12 and 1 <= "
+                     "fld('day_of_month') and fld('day_of_month') <= dimL(True, fld('month_of_year'))")
+    else:
+        for t in ("month_of_year", "day_of_month"):
+            if has(t):
+                conds.append(_TRUNC_OK[t])
+    if has("day_of_year"):
+        conds.append("valid_ord(%s, fld('day_of_year'))" % y if y else _TRUNC_OK["day_of_year"])
+    if has("week_of_year"):
+        dw = "fld('day_of_week')" if has("day_of_week") else "1"
+        conds.append("valid_week(%s, fld('week_of_year'), %s)" % (y, dw) if y else
+                     "(%s) and 1 <= %s and %s <= 7" % (_TRUNC_OK["week_of_year"], dw, dw))
+    elif has("day_of_week"):
+        conds.append(_TRUNC_OK["day_of_week"])
+    ok = " and ".join("(%s)" % c for c in conds) or "True"
+    return Case("trunc|%s:%s" % (style[0], name), build, ensures=ens,
+                raises=[("BadInputError", "not (%s)" % ok)])
+
+
+_REG["parsers:TimePointParser.parse"].cases = list(_REG["parsers:TimePointParser.parse"].cases) + [
+    trunc_date_case(n) for n in TRUNC_DATE_FORMS]
